@@ -263,6 +263,22 @@ func c08(ctx *run.Ctx) {
 				// open/high/low vary independently of the close: the outcome is defined on closings
 				snaps[i] = &asset.Snapshot{Date: reg.Day(i), Close: closes[i], Open: closes[i] * cc.R.FRange(0.9, 1.1), High: closes[i] * cc.R.FRange(1.1, 1.3), Low: closes[i] * cc.R.FRange(0.7, 0.9), Volume: float64(cc.R.Range(1, 1000))}
 			}
+			if n > 3 && rep%4 == 1 {
+				// an asset that is worthless for a day (close 0): the portfolio is worth nothing
+				// that day, -100 %, and what the next close says the day after
+				closes[cc.R.Range(1, n-1)] = 0
+				for i := range snaps {
+					snaps[i].Close = closes[i]
+				}
+			}
+			if n > 3 && rep%4 == 2 {
+				// two (or three) snapshots stamped with the same date are still separate snapshots
+				k := cc.R.Range(1, n-2)
+				snaps[k].Date = snaps[k-1].Date
+				if cc.R.Bool() {
+					snaps[k+1].Date = snaps[k-1].Date
+				}
+			}
 			if n > 2 && rep%3 == 0 {
 				// dirty data: a close outside its own bar's [low, high]; the outcome is defined on closings all the same
 				k := cc.R.Range(0, n-1)
